@@ -24,7 +24,9 @@ META["C16"] = {
 
 A_FILES = {"a.f90": ["module kinds", "type tol_t", "real :: abs_tol", "end type tol_t", "end module kinds",
                      # declared with capitals, referenced in lower case from B (names are case-insensitive)
-                     "module geom", "type Shape", "integer :: n", "end type Shape", "end module geom",
+                     "module geom", "type Shape", "integer :: n", "contains", "procedure :: Describe => describe_shape", "procedure :: area => area_shape",
+                     "end type Shape", "contains", "subroutine describe_shape(self)", "class(Shape) :: self", "end subroutine describe_shape",
+                     "function area_shape(self)", "class(Shape) :: self", "real :: area_shape", "end function area_shape", "end module geom",
                      "module shared", "integer :: s", "end module shared",
                      # a facade that re-exports another module's type under a new name: B sees it only under that name
                      "module base_m", "type base_t", "integer :: b", "end type base_t", "end module base_m",
@@ -53,6 +55,9 @@ LOCAL_SHARED = [("type shared", True), ("type Shared", True), ("type unshared", 
 def _b_files(mk, uk, ls):
     return {"b.f90": [mk, "type tol_t", "real :: rel_tol", "end type tol_t", ls, "integer :: q", "end type", "end module",
                       "module app", uk, "use geom", "use facade, only: root_t", "use facade2", "type(tol_t) :: v", "type(shape) :: w", "type(root_t) :: z", "type(root2_t) :: z2",
+                      # B extends A's type and overrides one of its bindings (spelled in another letter case); the other one is inherited
+                      "type, extends(shape) :: square", "integer :: side", "contains", "procedure :: describe => describe_square", "end type square",
+                      "contains", "subroutine describe_square(self)", "class(square) :: self", "end subroutine describe_square",
                       "end module app"]}
 
 
@@ -73,19 +78,24 @@ def _observe(p):
             continue
         used["geom" if is_geom is True else "kinds"] = _classify(u)
     vs = list(app.variables)
+    sq = [t for t in app.types if choice.apply(lambda n: str(n).lower() == "square", t.name) is True]
+    binds = sorted((str(b.name).lower(), _classify(b)) for b in sq[0].boundprocs) if sq else "MISSING"
     found = p.find("shared")
     return {"use kinds": used["kinds"], "use geom": used["geom"],
             "type(tol_t)": choice.apply(_classify, vs[0].proto[0]) if vs and vs[0].proto else "unresolved",
             "type(shape)": choice.apply(_classify, vs[1].proto[0]) if len(vs) > 1 and vs[1].proto else "unresolved",
             "type(root_t)": choice.apply(_classify, vs[2].proto[0]) if len(vs) > 2 and vs[2].proto else "unresolved",
             "type(root2_t)": choice.apply(_classify, vs[3].proto[0]) if len(vs) > 3 and vs[3].proto else "unresolved",
-            "find(shared)": "none" if found is None else choice.apply(_classify, found)}
+            "find(shared)": "none" if found is None else choice.apply(_classify, found),
+            "bindings of square": binds}
 
 
 def rule(local_kinds, local_shared):
     return {"use kinds": "local" if local_kinds else "external", "use geom": "external",
             "type(tol_t)": "local" if local_kinds else "external", "type(shape)": "external", "type(root_t)": "external", "type(root2_t)": "external",
-            "find(shared)": "local" if local_shared else "external"}
+            "find(shared)": "local" if local_shared else "external",
+            # B's own `describe` replaces A's `Describe`; `area` is inherited from A
+            "bindings of square": [("area", "external"), ("describe", "local")]}
 
 
 def replay_ext(w):
@@ -96,7 +106,9 @@ def replay_ext(w):
         got = _observe(p)
     finally:
         shutil.rmtree(d, ignore_errors=True)
-    return got != w["expected"], {"b": _b_files(*w["slots"])["b.f90"], "ford": got, "precedence_rule": w["expected"]}
+    import json
+    norm = lambda x: json.loads(json.dumps(x, default=str))
+    return norm(got) != norm(w["expected"]), {"b": _b_files(*w["slots"])["b.f90"], "ford": norm(got), "precedence_rule": norm(w["expected"])}
 
 
 @obligation("C16", "O1.local-before-external", engine="SX(CV)", timeout=1800)
@@ -127,7 +139,7 @@ def local_first(ctx):
             E.reachable("correlated")
             want = choice.apply(rule, mk[1], ls[1])
             h.want = want
-            for k in ("use kinds", "use geom", "type(tol_t)", "type(shape)", "type(root_t)", "type(root2_t)", "find(shared)"):
+            for k in ("use kinds", "use geom", "type(tol_t)", "type(shape)", "type(root_t)", "type(root2_t)", "find(shared)", "bindings of square"):
                 E.require(choice.apply(lambda g, w_, k=k: g == w_[k], got[k], want), f"{k}: wrong side (local/external) chosen")
 
         E = sym.Engine(ctx, max_paths=20000, incremental=True)
